@@ -152,10 +152,28 @@ def single_call_cases(seed, ops, tier):
     return cases
 
 
+def gen_line(l):
+    """the same request answered by the model GENERATED from ntt_goldilocks.cpp/.hpp (Gen/NttGen.lean, Driver/NttG.lean)"""
+    l = l.lstrip("!")
+    return "nttseqg" + l[len("nttseq"):] if l.startswith("nttseq ") else l
+
+
 def run_cases(res, harness, driver, cases, flavour, timeout=900):
     lines = [c["line"] for c in cases]
     impl = run_parallel(harness, lines, timeout=timeout)
     model = run_parallel(driver, [l.lstrip("!") for l in lines], timeout=timeout)
+    # the generated model is run against the first build flavour only (the implementation's replies of the other flavours are
+    # compared with the hand model and the reference; keeps the thorough tier's time)
+    gen = run_parallel(driver, [gen_line(l) for l in lines], timeout=timeout) if flavour == "O1" else list(impl)
+    ngen = 0
+    for c, ri, rg in zip(cases, impl, gen):
+        if (ri or "").strip() != (rg or "").strip():
+            res.broken.append(("correspondence %s: implementation != GENERATED model (Gen/NttGen.lean, translated from ntt_goldilocks.cpp/.hpp)" % c["key"],
+                               "shape: %s\nline: %s\nimpl     : %s\ngenerated: %s" % (c.get("tag"), gen_line(c["line"])[:400], (ri or "")[:300], (rg or "")[:300])))
+        else:
+            ngen += 1
+    if flavour == "O1":
+        res.extra["generated_model_agreements"] = res.extra.get("generated_model_agreements", 0) + ngen
     for c, ri, rm in zip(cases, impl, model):
         res.note_case(c["line"][:300], c.get("tag"))
         v = parse_reply(ri)
